@@ -49,6 +49,11 @@ def sweep_units(prop, with_log):
     return us
 
 
+def oracle_selftest_unit(prop):
+    # the reference model against hand-written closed forms and its own identities + NaN plumbing of the residual helpers (no manif code)
+    return Unit('oracle/selftest', 'checks/selftest.cpp', defs=['VF_UNIT="oracle/selftest"', 'VF_PROP="%s"' % prop], flags=['-O2'])
+
+
 def exact_unit(prop):
     # the library instantiated over exact rationals (GMP): group law, action, adjoint and Lie-algebra identities with zero residual
     return Unit('exact_rational', 'checks/c01_exact.cpp', defs=['VF_UNIT="ExactQ/all_groups"', 'VF_PROP="%s"' % prop], link=[], ldflags=['-lgmpxx', '-lgmp'],
@@ -94,6 +99,7 @@ class C02(Spec):
         us = lattice_units('checks/c02.cpp', shards=sh)
         if tier == 'thorough':
             us += sweep_units('C02', False)
+        us.append(oracle_selftest_unit('C02'))
         return us
 
 
